@@ -54,7 +54,10 @@ IDENTS = ["x", "y1", "self.global_state_y", "local_tmp_0", "dagrt_state%dagrt_st
           "averyveryverylongidentifier_that_goes_on_and_on_0123456789", "f", "numpy"]
 OPS = ["+", "-", "*", "/", "**"]
 STRS = ["\"can't be reduced any further\"", "'value of \"dt\" is too small'", "'a b'", "'two  spaces'", "'failed to allocate  x'", "''", "\"dq string\"", "'x'",
-        "'a very long string literal that is certainly wider than a narrow line width allows'"]
+        "'a very long string literal that is certainly wider than a narrow line width allows'",
+        # characters that mean something to the targets OUTSIDE a string: comment signs, continuation markers
+        "'step rejected! retrying with smaller dt'", "'a & b'", "\"50% done # not a comment\"", "'back\\slash'",
+        "'semi; colon'", "'!'", "'&'"]
 
 
 def py_expr_tokens(rng, n):
